@@ -558,3 +558,393 @@ Proof.
   unfold partitions_of. destruct (dedup_strs_spec (map b_part bs) []) as [A B]. split; [exact A|].
   intros b Hb. apply B. split; [apply in_map; exact Hb|simpl; tauto].
 Qed.
+
+(* ------------------------------------------------------------------ *)
+(* data effect of mergeDataBlocks / copyDataBlock                      *)
+
+Definition entry_ok (kv : str * (Z * Z)) : Prop :=
+  let '(_, (mn, mx)) := kv in in64 mn /\ in64 mx /\ mn <= mx.
+Definition mm_ok (m : list (str * (Z * Z))) : Prop := Forall entry_ok m.
+
+Lemma assoc_In {A} k (v : A) l : assoc k l = Some v -> In (k, v) l.
+Proof.
+  induction l as [|[k' v'] t IH]; simpl; [discriminate|].
+  destruct (str_eqb k k') eqn:E; intro H.
+  - apply str_eqb_eq in E. inversion H; subst. auto.
+  - auto.
+Qed.
+
+Lemma mm_ok_assoc m k mn mx : mm_ok m -> assoc k m = Some (mn, mx) -> in64 mn /\ in64 mx /\ mn <= mx.
+Proof.
+  intros Hok Ha. apply assoc_In in Ha. unfold mm_ok in Hok. rewrite Forall_forall in Hok.
+  apply (Hok _ Ha).
+Qed.
+
+Lemma update_mm_ok mn mx lo hi :
+  in64 mn -> in64 mx -> mn <= mx -> in64 lo -> in64 hi -> lo <= hi ->
+  entry_ok ([], update_mm (mn, mx) lo hi).
+Proof. unfold entry_ok, update_mm, in64. intros. leb_cases; lia. Qed.
+
+Lemma merge_mm_ok : forall m2 m1, mm_ok m1 -> mm_ok m2 -> mm_ok (merge_mm m1 m2).
+Proof.
+  induction m2 as [|[k [mn2 mx2]] t IH]; intros m1 H1 H2; simpl; [exact H1|].
+  inversion H2 as [|? ? Hk Ht]; subst. simpl in Hk. destruct Hk as [A [B C]].
+  destruct (assoc k m1) as [[mn mx]|] eqn:E.
+  - apply IH; [|exact Ht]. constructor; [|exact H1].
+    destruct (mm_ok_assoc _ _ _ _ H1 E) as [D [F G]].
+    pose proof (update_mm_ok mn mx mn2 mx2 D F G A B C) as U. unfold entry_ok in *.
+    destruct (update_mm (mn, mx) mn2 mx2). exact U.
+  - apply IH; [|exact Ht]. constructor; [|exact H1]. simpl. auto.
+Qed.
+
+Lemma merge_mms_fold_ok t : forall acc,
+  mm_ok acc -> (forall b, In b t -> mm_ok (b_minmax b)) ->
+  mm_ok (fold_left (fun a x => merge_mm a (b_minmax x)) t acc).
+Proof.
+  induction t as [|b t IH]; intros acc Ha Ht; simpl; [exact Ha|].
+  apply IH; [apply merge_mm_ok; [exact Ha|apply Ht; simpl; auto]|]. intros x Hx. apply Ht. simpl. auto.
+Qed.
+
+Lemma merge_mms_ok g : (forall b, In b g -> mm_ok (b_minmax b)) -> mm_ok (merge_mms g).
+Proof.
+  destruct g as [|b t]; simpl; intro H; [constructor|].
+  apply merge_mms_fold_ok; [apply H; auto|]. intros x Hx. apply H. auto.
+Qed.
+
+Lemma merge_mms_fold_covers k lo hi t : forall acc,
+  (mm_covers acc k lo hi \/ exists b, In b t /\ mm_covers (b_minmax b) k lo hi) ->
+  mm_covers (fold_left (fun a x => merge_mm a (b_minmax x)) t acc) k lo hi.
+Proof.
+  induction t as [|b t IH]; intros acc H; simpl.
+  - destruct H as [H|[b [[] _]]]. exact H.
+  - apply IH. destruct H as [H|[x [[<-|Hx] Hc]]].
+    + left. apply merge_mm_keeps. exact H.
+    + left. apply merge_mm_covers_right. exact Hc.
+    + right. exists x. auto.
+Qed.
+
+(* mergeMinMaxIndexes folded over the group: whatever a member covered stays covered
+   (a wrong union breaks this lemma) *)
+Lemma merge_mms_covers g b k lo hi :
+  In b g -> mm_covers (b_minmax b) k lo hi -> mm_covers (merge_mms g) k lo hi.
+Proof.
+  destruct g as [|b0 t]; simpl; [tauto|]. intros [<-|Hin] Hc; apply merge_mms_fold_covers.
+  - left. exact Hc.
+  - right. exists b. auto.
+Qed.
+
+(* keys of the merged index: exactly the keys some member has *)
+Lemma merge_mm_keys : forall m2 m1 k,
+  assoc k (merge_mm m1 m2) <> None <-> (assoc k m1 <> None \/ assoc k m2 <> None).
+Proof.
+  induction m2 as [|[k2 [mn2 mx2]] t IH]; intros m1 k; simpl.
+  - split; [auto|]. intros [H|H]; [exact H|congruence].
+  - pose proof (observe_keys m1 k2 mn2 mx2 k) as Ho. unfold observe in Ho.
+    destruct (str_eqb k k2) eqn:E.
+    + apply str_eqb_eq in E. subst k2.
+      destruct (assoc k m1) as [idx|] eqn:Ea; rewrite IH; split; intros _; try (right; discriminate);
+        left; apply Ho; auto.
+    + apply str_eqb_neq in E.
+      destruct (assoc k2 m1) as [idx|]; rewrite IH; rewrite Ho; split; intros [H|H]; auto;
+        destruct H as [H|H]; auto; contradiction.
+Qed.
+
+Lemma merge_mms_fold_keys k t : forall acc,
+  assoc k (fold_left (fun a x => merge_mm a (b_minmax x)) t acc) <> None <->
+  (assoc k acc <> None \/ exists b, In b t /\ assoc k (b_minmax b) <> None).
+Proof.
+  induction t as [|b t IH]; intros acc; simpl.
+  - split; [auto|]. intros [H|[b [[] _]]]. exact H.
+  - rewrite IH, merge_mm_keys. split.
+    + intros [[H|H]|[x [Hx Hk]]]; [auto|right; exists b; auto|right; exists x; auto].
+    + intros [H|[x [[<-|Hx] Hk]]]; [auto|auto|right; exists x; auto].
+Qed.
+
+Lemma merge_mms_keys g k :
+  assoc k (merge_mms g) <> None <-> exists b, In b g /\ assoc k (b_minmax b) <> None.
+Proof.
+  destruct g as [|b0 t]; simpl.
+  - split; [congruence|]. intros [b [[] _]].
+  - rewrite merge_mms_fold_keys. split.
+    + intros [H|[x [Hx Hk]]]; [exists b0; auto|exists x; auto].
+    + intros [x [[<-|Hx] Hk]]; [auto|right; exists x; auto].
+Qed.
+
+(* a row is where it belongs: its block has its partition and covers its indexed values *)
+Definition row_covered (m : blockmeta) (r : mrow) : Prop :=
+  b_partition m = mr_part r /\
+  forall k lo hi, In (k, (lo, hi)) (mr_vals r) -> mm_covers (b_mm m) k lo hi.
+
+(* truthful metadata, sane ranges, rows covered, filters built from (at least) the rows' entries *)
+Definition block_wf (b : block) : Prop :=
+  b_nrows b = Z.of_nat (length (b_rows b)) /\
+  b_usize b = zsum (map row_usize (b_rows b)) /\
+  mm_ok (b_minmax b) /\
+  (forall r, In r (b_rows b) -> row_covered (b_meta b) r) /\
+  (forall r e, In r (b_rows b) -> In e (mr_ents r) -> In e (b_ents b)).
+
+Lemma out_block_rows e g : b_rows (out_block e g) = flat_map b_rows g.
+Proof.
+  destruct g as [|b [|b' t]]; simpl; try reflexivity. rewrite app_nil_r. reflexivity.
+Qed.
+
+Lemma same_key_partition x y : merge_key (b_meta x) = merge_key (b_meta y) -> b_part x = b_part y.
+Proof. intro H. apply merge_key_iff in H. apply H. Qed.
+
+Lemma merged_block_wf c e g :
+  bgroup_ok c g -> (forall b, In b g -> block_wf b) -> block_wf (merged_block e g).
+Proof.
+  intros [Hne [Hkey _]] Hwf. unfold block_wf. cbn [merged_block b_nrows b_usize b_rows b_ents b_meta b_minmax b_mm].
+  split; [reflexivity|]. split; [reflexivity|]. split; [|split].
+  - unfold b_minmax. cbn [merged_block b_meta b_mm]. apply merge_mms_ok. intros b Hb. apply (Hwf b Hb).
+  - intros r Hr. apply in_flat_map in Hr as [b [Hb Hr]].
+    destruct (Hwf b Hb) as [_ [_ [_ [Hcov _]]]]. destruct (Hcov r Hr) as [Hp Hv].
+    split; cbn [b_partition b_mm].
+    + destruct g as [|b0 t]; [contradiction|]. rewrite <- Hp.
+      apply (same_key_partition b0 b). apply Hkey; simpl; auto.
+    + intros k lo hi Hin. apply (merge_mms_covers g b k lo hi Hb). apply Hv. exact Hin.
+  - intros r x Hr Hx. apply in_flat_map. exists r. auto.
+Qed.
+
+Lemma out_block_wf c e g :
+  bgroup_ok c g -> (forall b, In b g -> block_wf b) -> block_wf (out_block e g).
+Proof.
+  intros Hg Hwf. destruct g as [|b [|b' t]].
+  - destruct Hg as [Hne _]. congruence.
+  - simpl. apply Hwf. simpl. auto.
+  - change (out_block e (b :: b' :: t)) with (merged_block e (b :: b' :: t)). eapply merged_block_wf; eauto.
+Qed.
+
+(* C12 on the output itself: a combined block really holds at most the configured rows/bytes *)
+Lemma merged_block_limits c e g :
+  bgroup_ok c g -> (2 <= length g)%nat -> (forall b, In b g -> block_wf b) ->
+  Z.of_nat (length (b_rows (out_block e g))) <= c_max_rows c /\
+  zsum (map row_usize (b_rows (out_block e g))) <= c_max_bytes c.
+Proof.
+  intros [_ [_ Hlim]] H2 Hwf. destruct (Hlim H2) as [L1 L2]. rewrite out_block_rows.
+  clear Hlim H2. unfold blocks_rows, blocks_usize in *.
+  assert (G : forall l, (forall b, In b l -> block_wf b) ->
+                        Z.of_nat (length (flat_map b_rows l)) = zsum (map b_nrows l) /\
+                        zsum (map row_usize (flat_map b_rows l)) = zsum (map b_usize l)).
+  { induction l as [|b l IH]; intro Hl; simpl; [split; reflexivity|].
+    destruct (Hl b (or_introl eq_refl)) as [A [B _]]. destruct IH as [I1 I2]; [intros; apply Hl; simpl; auto|].
+    rewrite app_length, Nat2Z.inj_add, map_app, zsum_app. lia. }
+  destruct (G g Hwf) as [G1 G2]. lia.
+Qed.
+
+(* ------------------------------------------------------------------ *)
+(* the store before and after a committed merge                        *)
+
+Definition file_wf (f : file) : Prop :=
+  (forall b, In b (f_blocks f) -> block_wf b) /\
+  (forall b r e, In b (f_blocks f) -> In r (b_rows b) -> In e (mr_ents r) -> In e (f_ents f)).
+
+Definition store_wf (st : list file) : Prop :=
+  NoDup (map f_ptr st) /\ forall f, In f st -> file_wf f.
+
+(* a visiting order of the partitions of a group: any duplicate-free list covering them *)
+Definition porder_ok (g : list file) (po : list str) : Prop :=
+  NoDup po /\ forall b, In b (group_blocks g) -> In (b_part b) po.
+
+(* st' is a possible result of a committed Merge on st: any tie order of the candidate
+   sort (indeed any order), any map iteration order of the partitions, any fresh pointers *)
+Definition merge_ok (e : env) (c : cfg) (st st' : list file) : Prop :=
+  exists sorted porders ptrs,
+    Permutation sorted st /\
+    Forall2 porder_ok (plan_files_ord c sorted) porders /\
+    length ptrs = length (plan_files_ord c sorted) /\
+    NoDup ptrs /\ (forall p, In p ptrs -> ~ In p (map f_ptr st)) /\
+    st' = merge_store e c sorted porders ptrs st.
+
+Lemma filter_perm {A} (f : A -> bool) l l' : Permutation l l' -> Permutation (filter f l) (filter f l').
+Proof.
+  induction 1 as [|x l l' _ IH|x y l|l l' l'' _ IH1 _ IH2]; simpl.
+  - constructor.
+  - destruct (f x); [constructor|]; exact IH.
+  - destruct (f x); destruct (f y); try reflexivity. apply perm_swap.
+  - eapply Permutation_trans; eauto.
+Qed.
+
+Lemma filter_all_false {A} (f : A -> bool) l : (forall x, In x l -> f x = false) -> filter f l = [].
+Proof.
+  induction l as [|x t IH]; simpl; intro H; [reflexivity|].
+  rewrite (H x (or_introl eq_refl)). apply IH. intros; apply H; auto.
+Qed.
+
+Lemma filter_all_true {A} (f : A -> bool) l : (forall x, In x l -> f x = true) -> filter f l = l.
+Proof.
+  induction l as [|x t IH]; simpl; intro H; [reflexivity|].
+  rewrite (H x (or_introl eq_refl)). f_equal. apply IH. intros; apply H; auto.
+Qed.
+
+(* the surviving files are exactly the ungrouped ones *)
+Lemma merge_store_shape e c sorted porders ptrs st :
+  Permutation sorted st -> NoDup (map f_ptr st) ->
+  exists leftover,
+    Permutation (concat (plan_files_ord c sorted) ++ leftover) st /\
+    Permutation (merge_store e c sorted porders ptrs st)
+                (leftover ++ out_files e c (plan_files_ord c sorted) porders ptrs).
+Proof.
+  intros Hs Hn. destruct (plan_files_ord_spec c sorted) as [[lo Hlo] _].
+  set (groups := plan_files_ord c sorted) in *.
+  assert (Hst : Permutation (concat groups ++ lo) st) by (rewrite Hlo; exact Hs).
+  exists lo. split; [exact Hst|]. unfold merge_store. fold groups.
+  apply Permutation_app; [|reflexivity].
+  rewrite <- (filter_perm _ _ _ Hst). rewrite filter_app.
+  assert (Hnd : NoDup (map f_ptr (concat groups ++ lo))).
+  { eapply Permutation_NoDup; [|exact Hn]. apply Permutation_map. symmetry. exact Hst. }
+  rewrite map_app in Hnd. apply NoDup_app_inv in Hnd as [_ [_ Hdis]].
+  rewrite filter_all_false, filter_all_true; [reflexivity| |].
+  - intros x Hx. apply negb_true_iff. apply mem_z_false. intro Hin. unfold grouped_ptrs in Hin.
+    apply (Hdis (f_ptr x)); [exact Hin|apply in_map; exact Hx].
+  - intros x Hx. apply negb_false_iff. apply mem_z_In. unfold grouped_ptrs. apply in_map. exact Hx.
+Qed.
+
+Lemma all_rows_app a b : all_rows (a ++ b) = all_rows a ++ all_rows b.
+Proof. unfold all_rows, all_blocks. rewrite !flat_map_app. reflexivity. Qed.
+
+Lemma all_rows_perm a b : Permutation a b -> Permutation (all_rows a) (all_rows b).
+Proof. intro H. unfold all_rows, all_blocks. apply Permutation_flat_map. apply Permutation_flat_map. exact H. Qed.
+
+Lemma flat_map_concat' {A B} (f : A -> list B) (l : list (list A)) :
+  flat_map f (concat l) = flat_map (fun g => flat_map f g) l.
+Proof. induction l as [|x t IH]; simpl; [reflexivity|]. rewrite flat_map_app, IH. reflexivity. Qed.
+
+Lemma flat_map_map' {A B C} (f : B -> list C) (g : A -> B) (l : list A) :
+  flat_map f (map g l) = flat_map (fun x => f (g x)) l.
+Proof. induction l as [|x t IH]; simpl; [reflexivity|]. rewrite IH. reflexivity. Qed.
+
+(* one output file holds exactly the rows of its group *)
+Lemma out_file_rows e c po p g :
+  porder_ok g po ->
+  Permutation (flat_map b_rows (f_blocks (out_file e c po p g))) (flat_map b_rows (group_blocks g)).
+Proof.
+  intros [Hn Hc]. cbn [out_file f_blocks]. rewrite flat_map_map'.
+  rewrite (flat_map_ext _ (fun g0 => flat_map b_rows g0)) by (intros; apply out_block_rows).
+  rewrite <- flat_map_concat'. apply Permutation_flat_map.
+  apply plan_blocks_spec; assumption.
+Qed.
+
+Lemma out_files_rows e c : forall groups porders ptrs,
+  Forall2 porder_ok groups porders -> length ptrs = length groups ->
+  Permutation (all_rows (out_files e c groups porders ptrs)) (all_rows (concat groups)).
+Proof.
+  induction groups as [|g gs IH]; intros porders ptrs HF Hl.
+  - inversion HF; subst. simpl. reflexivity.
+  - inversion HF as [|? po ? pos Hpo HF']; subst. destruct ptrs as [|p ps]; [simpl in Hl; lia|].
+    cbn [out_files concat]. change (out_file e c po p g :: out_files e c gs pos ps)
+      with ([out_file e c po p g] ++ out_files e c gs pos ps).
+    rewrite !all_rows_app. apply Permutation_app.
+    + unfold all_rows, all_blocks. simpl. rewrite app_nil_r. apply (out_file_rows e c po p g Hpo).
+    + apply IH; [exact HF'|simpl in Hl; lia].
+Qed.
+
+(* C11: the multiset of stored rows is unchanged *)
+Lemma merge_rows e c st st' :
+  NoDup (map f_ptr st) -> merge_ok e c st st' -> Permutation (all_rows st') (all_rows st).
+Proof.
+  intros Hn [sorted [porders [ptrs [Hs [HF [Hl [_ [_ ->]]]]]]]].
+  destruct (merge_store_shape e c sorted porders ptrs st Hs Hn) as [lo [H1 H2]].
+  rewrite (all_rows_perm _ _ H2), all_rows_app.
+  rewrite <- (all_rows_perm _ _ H1), all_rows_app.
+  rewrite (out_files_rows e c _ _ _ HF Hl). apply Permutation_app_comm.
+Qed.
+
+Lemma Forall2_len {A B} (R : A -> B -> Prop) l l' : Forall2 R l l' -> length l = length l'.
+Proof. induction 1; simpl; auto. Qed.
+
+Lemma out_files_ptrs e c : forall groups porders ptrs,
+  length porders = length groups -> length ptrs = length groups ->
+  map f_ptr (out_files e c groups porders ptrs) = ptrs.
+Proof.
+  induction groups as [|g gs IH]; intros [|po pos] [|p ps] H1 H2; simpl in *; try lia; try reflexivity.
+  f_equal. apply IH; lia.
+Qed.
+
+Lemma out_file_wf e c po p g :
+  porder_ok g po -> (forall f, In f g -> file_wf f) -> file_wf (out_file e c po p g).
+Proof.
+  intros [Hn Hc] Hwf.
+  destruct (plan_blocks_spec c po (group_blocks g) Hn Hc) as [Hp Hg]. rewrite Forall_forall in Hg.
+  assert (Hbwf : forall b, In b (group_blocks g) -> block_wf b).
+  { intros b Hb. unfold group_blocks in Hb. apply in_flat_map in Hb as [f [Hf Hb]]. apply (Hwf f Hf). exact Hb. }
+  assert (Hmem : forall pg b, In pg (plan_blocks c po (group_blocks g)) -> In b pg -> In b (group_blocks g)).
+  { intros pg b Hpg Hb. eapply Permutation_in; [exact Hp|]. apply in_concat. exists pg. auto. }
+  split; cbn [out_file f_blocks f_ents].
+  - intros b Hb. apply in_map_iff in Hb as [pg [<- Hpg]].
+    eapply out_block_wf; [apply Hg; exact Hpg|]. intros x Hx. apply Hbwf. eapply Hmem; eauto.
+  - intros b r x Hb Hr Hx. apply in_map_iff in Hb as [pg [<- Hpg]].
+    rewrite out_block_rows in Hr. apply in_flat_map in Hr as [b0 [Hb0 Hr]].
+    apply in_flat_map. exists r. split; [|exact Hx]. apply in_flat_map. exists b0. split; [|exact Hr].
+    eapply Hmem; eauto.
+Qed.
+
+Lemma out_files_wf e c : forall groups porders ptrs,
+  Forall2 porder_ok groups porders -> (forall g f, In g groups -> In f g -> file_wf f) ->
+  forall f, In f (out_files e c groups porders ptrs) -> file_wf f.
+Proof.
+  induction groups as [|g gs IH]; intros porders ptrs HF Hwf f Hf.
+  - inversion HF; subst. simpl in Hf. contradiction.
+  - inversion HF as [|? po ? pos Hpo HF']; subst. destruct ptrs as [|p ps]; [simpl in Hf; contradiction|].
+    cbn [out_files] in Hf. destruct Hf as [<-|Hf].
+    + apply out_file_wf; [exact Hpo|]. intros x Hx. apply (Hwf g x); simpl; auto.
+    + eapply IH; eauto. intros g' x Hg' Hx. apply (Hwf g' x); simpl; auto.
+Qed.
+
+(* C11: every row stays in a block with its partition whose ranges cover it; metadata stays
+   truthful; pointers stay unique (so the statement composes over repeated merges) *)
+Lemma merge_store_wf e c st st' : store_wf st -> merge_ok e c st st' -> store_wf st'.
+Proof.
+  intros [Hn Hwf] [sorted [porders [ptrs [Hs [HF [Hl [Hnp [Hfresh ->]]]]]]]].
+  destruct (merge_store_shape e c sorted porders ptrs st Hs Hn) as [lo [H1 H2]].
+  set (groups := plan_files_ord c sorted) in *.
+  assert (Hin : forall f, In f (concat groups ++ lo) -> In f st) by (intros f Hf; eapply Permutation_in; eauto).
+  split.
+  - eapply Permutation_NoDup; [apply Permutation_map; symmetry; exact H2|].
+    rewrite map_app, (out_files_ptrs e c groups porders ptrs (eq_sym (Forall2_len _ _ _ HF)) Hl).
+    assert (Hlo : NoDup (map f_ptr lo) /\ forall p, In p (map f_ptr lo) -> In p (map f_ptr st)).
+    { split.
+      - assert (Hnd : NoDup (map f_ptr (concat groups ++ lo))).
+        { eapply Permutation_NoDup; [|exact Hn]. apply Permutation_map. symmetry. exact H1. }
+        rewrite map_app in Hnd. apply NoDup_app_inv in Hnd. apply Hnd.
+      - intros p Hp. apply in_map_iff in Hp as [f [<- Hf]]. apply in_map. apply Hin. apply in_or_app. auto. }
+    destruct Hlo as [Hlo1 Hlo2].
+    clear - Hlo1 Hlo2 Hnp Hfresh. induction (map f_ptr lo) as [|x t IH]; simpl; [exact Hnp|].
+    inversion Hlo1; subst. constructor.
+    + intro Hx. apply in_app_or in Hx as [Hx|Hx]; [contradiction|].
+      apply (Hfresh x Hx). apply Hlo2. simpl. auto.
+    + apply IH; [assumption|]. intros p Hp. apply Hlo2. simpl. auto.
+  - intros f Hf. eapply Permutation_in in Hf; [|exact H2]. apply in_app_or in Hf as [Hf|Hf].
+    + apply Hwf. apply Hin. apply in_or_app. auto.
+    + eapply out_files_wf; [exact HF| |exact Hf].
+      intros g x Hg Hx. apply Hwf. apply Hin. apply in_or_app. left. apply in_concat. exists g. auto.
+Qed.
+
+(* where the rows of the new store sit: the statement of C11's second clause *)
+Lemma store_wf_rows st f b r :
+  store_wf st -> In f st -> In b (f_blocks f) -> In r (b_rows b) ->
+  b_part b = mr_part r /\ (forall k lo hi, In (k, (lo, hi)) (mr_vals r) -> mm_covers (b_minmax b) k lo hi).
+Proof.
+  intros [_ Hwf] Hf Hb Hr. destruct (Hwf f Hf) as [Hb' _]. destruct (Hb' b Hb) as [_ [_ [_ [Hc _]]]].
+  apply (Hc r Hr).
+Qed.
+
+(* the key set of a combined block is the key set each of its sources had *)
+Lemma merged_block_keys c e g b k :
+  bgroup_ok c g -> In b g ->
+  (assoc k (b_minmax (merged_block e g)) <> None <-> assoc k (b_minmax b) <> None).
+Proof.
+  intros [_ [Hkey _]] Hb. unfold b_minmax at 1. cbn [merged_block b_meta b_mm]. rewrite merge_mms_keys.
+  assert (Hsame : forall x, In x g -> (assoc k (b_minmax x) <> None <-> assoc k (b_minmax b) <> None)).
+  { intros x Hx. pose proof (Hkey x b Hx Hb) as K. apply merge_key_iff in K as [_ K].
+    assert (G : forall m : list (str * (Z * Z)), assoc k m <> None <-> In k (map fst m)).
+    { clear. induction m as [|[k' v] t IH]; simpl; [split; [congruence|tauto]|].
+      destruct (str_eqb k k') eqn:E.
+      - apply str_eqb_eq in E. subst. split; [auto|discriminate].
+      - apply str_eqb_neq in E. rewrite IH. split; [auto|]. intros [H|H]; [congruence|exact H]. }
+    unfold b_minmax. rewrite !G. split; intro H;
+      [eapply Permutation_in; [exact K|exact H] | eapply Permutation_in; [symmetry; exact K|exact H]]. }
+  split.
+  - intros [x [Hx Hk]]. apply (Hsame x Hx). exact Hk.
+  - intro Hk. exists b. auto.
+Qed.
